@@ -552,6 +552,23 @@ fn small_model(rng: &mut Rng) -> M {
 }
 
 
+
+// ------------------------------------------------------------------ witnesses of the refutation lemmas (coq/C15/Proofs.v)
+
+/// shadow_model: `schema { query: Query }` + a type called Mutation
+fn shadow_model() -> M {
+    let f = |n: &str, t: Ty| MField { name: n.into(), desc: None, args: vec![], ty: t, depr: None };
+    M { desc: None, types: vec![MType { name: "Query".into(), desc: None, kind: MKind::Object(vec![], vec![f("a", gn("Int"))]) },
+                               MType { name: "Mutation".into(), desc: None, kind: MKind::Object(vec![], vec![f("a", gn("Int"))]) }],
+        dirs: vec![], query: "Query".into(), mutation: None, subscription: None, explicit: true }
+}
+/// tiny_model: `type Query { a: String }`
+fn tiny_model() -> M {
+    let f = |n: &str, t: Ty| MField { name: n.into(), desc: None, args: vec![], ty: t, depr: None };
+    M { desc: None, types: vec![MType { name: "Query".into(), desc: None, kind: MKind::Object(vec![], vec![f("a", gn("String"))]) }],
+        dirs: vec![], query: "Query".into(), mutation: None, subscription: None, explicit: false }
+}
+
 // ------------------------------------------------------------------ the real CLI on twin projects
 
 /// runs `nitrogql-cli check generate` in `dir` (schema file `schema_file`), returns (exit ok, schema.d.ts text, stdout+stderr)
@@ -573,7 +590,7 @@ fn unindent(s: &str) -> String { s.lines().map(|l| l.trim_start()).filter(|l| !l
 // ------------------------------------------------------------------ main
 
 #[derive(Default)]
-struct Stats { n_cli: usize, n_cli_exit_diff: usize, n_guard: usize, n_routes: usize, n_docs: usize, n_verdict_diff: usize, n_alias_strict: usize, n_alias_text_diff: usize, n_json: usize, json_outcomes: BTreeMap<String, usize>, mutation_kinds: BTreeMap<String, usize>,
+struct Stats { n_json_shuffled: usize, n_cli: usize, n_cli_exit_diff: usize, n_guard: usize, n_routes: usize, n_docs: usize, n_verdict_diff: usize, n_alias_strict: usize, n_alias_text_diff: usize, n_json: usize, json_outcomes: BTreeMap<String, usize>, mutation_kinds: BTreeMap<String, usize>,
                styles: BTreeMap<String, usize>, n_back: usize, n_strict_equiv: usize }
 
 fn main() {
@@ -583,11 +600,69 @@ fn main() {
     let thorough = args.tier == "thorough";
     let cli: Option<std::path::PathBuf> = args.extra.iter().position(|a| a == "--cli").and_then(|i| args.extra.get(i + 1)).map(std::path::PathBuf::from);
     let n_cli_projects = if thorough { 40 } else { 6 };
-    let mut cases = Cases::new("From V Require Import Base.Util Gql.Ast Writer.Wop C15.Model C15.Spec C15.Corr.", "case", "agree", "holds", if thorough { 16 } else { 12 });
+    let mut cases = Cases::new("From V Require Import Base.Util Gql.Ast Writer.Wop C15.Model C15.Spec C15.Proofs C15.Corr.", "case", "agree", "holds", if thorough { 16 } else { 12 });
     let mut distinct: HashSet<String> = HashSet::new();
     let mut st = Stats::default();
     let mut direct_failures: Vec<serde_json::Value> = vec![];
     let mut samples: Vec<serde_json::Value> = vec![];
+
+    // ---- stream 0: the witnesses of the refutation lemmas, replayed against the real code.  The model is referred to by its
+    //      Coq name, so `agree` also checks that the Coq witness and the inputs built here are the same schema.
+    let corpus_dir: Option<std::path::PathBuf> = args.extra.iter().position(|a| a == "--corpus").and_then(|i| args.extra.get(i + 1)).map(std::path::PathBuf::from);
+    let dump_corpus = args.extra.iter().any(|a| a == "--dump-corpus");
+    let mut n_witness = 0usize; let mut n_witness_reproduced = 0usize;
+    for (coq_name, m, meta, guard, label, doc_text, class) in [
+        ("shadow_model", shadow_model(), false, false, "shadow-root", "mutation { a }\n", "json-root-types-implicit"),
+        ("tiny_model", tiny_model(), true, true, "unused-builtin-variable", "query Q($v: Float) { __typename }\n", "sdl-unreferenced-builtin-scalars"),
+        ("tiny_model", tiny_model(), true, true, "meta-type-fragment", "query Q { ...F }\nfragment F on Query { a }\nfragment G on __Type { name }\n", "json-meta-types-are-schema-types"),
+    ] {
+        let order: Vec<usize> = (0..m.types.len()).collect();
+        let sdl = render_sdl(&m, &order);
+        let listed = listed_types(&m, meta);
+        let j = introspect_of(Style::Full, &listed, &m);
+        let jt = j.text();
+        let tsdoc = load_schema(&sdl).expect("witness SDL loads");
+        let ts_sdl = to_type_system(&tsdoc);
+        let (out_json, tag, ts_json) = json_route(&jt);
+        let ts_json = ts_json.expect("witness JSON loads");
+        if label != "meta-type-fragment" {
+            cases.push(format!("CRoutes false {} Full {} [] {} {} {} {} {}", coq_bool(guard), coq_bool(meta), coq_name, ast_coq::tsdoc(&tsdoc), j.coq(), cschema(&ts_sdl), out_json),
+                json!({"kind": "routes", "label": if label == "shadow-root" { "shadow-root" } else { "witness" }, "witness": coq_name, "meta": meta, "sdl": sdl, "json": jt, "json_route": tag}));
+        }
+        let doc = load_operation(doc_text).expect("witness document parses");
+        let e1: Vec<_> = check_operation(&ts_sdl, &doc).iter().map(error_summary).collect();
+        let e2: Vec<_> = check_operation(&ts_json, &doc).iter().map(error_summary).collect();
+        n_witness += 1; if e1.is_empty() != e2.is_empty() { n_witness_reproduced += 1; }
+        cases.push(format!("CVerdict {} {} {}", coq_str(label), coq_bool(e1.is_empty()), coq_bool(e2.is_empty())),
+            json!({"kind": "verdict", "label": label, "witness": coq_name, "sdl": sdl, "json": jt, "doc": doc_text, "errors_sdl": format!("{e1:?}"), "errors_json": format!("{e2:?}")}));
+        if dump_corpus {
+            if let Some(dir) = &corpus_dir {
+                std::fs::create_dir_all(dir).unwrap();
+                std::fs::write(dir.join(format!("{label}.json")), serde_json::to_string_pretty(&json!({"class": class, "coq_witness": coq_name, "sdl": sdl, "introspection": jt, "document": doc_text,
+                    "observed": {"sdl_route_accepts": e1.is_empty(), "json_route_accepts": e2.is_empty(), "errors_sdl": format!("{e1:?}"), "errors_json": format!("{e2:?}")}})).unwrap()).unwrap();
+            }
+        }
+    }
+    // stored witnesses (corpus/C15/*.json): schema pair + document, replayed as verdict cases
+    let mut n_corpus = 0usize;
+    if let Some(dir) = &corpus_dir {
+        let mut files: Vec<_> = std::fs::read_dir(dir).map(|d| d.filter_map(|e| e.ok()).map(|e| e.path()).filter(|p| p.extension().map_or(false, |x| x == "json")).collect()).unwrap_or_default();
+        files.sort();
+        for f in files {
+            let Ok(text) = std::fs::read_to_string(&f) else { continue };
+            let Ok(v) = serde_json::from_str::<serde_json::Value>(&text) else { continue };
+            let (Some(sdl), Some(jt), Some(doc_text)) = (v["sdl"].as_str(), v["introspection"].as_str(), v["document"].as_str()) else { continue };
+            let label = f.file_stem().unwrap().to_string_lossy().to_string();
+            let Ok(tsdoc) = load_schema(sdl) else { continue };
+            let ts_sdl = to_type_system(&tsdoc);
+            let Ok(ts_json) = schema_from_introspection_json::<Pos>(jt) else { continue };
+            let Ok(doc) = load_operation(doc_text) else { continue };
+            let ok1 = check_operation(&ts_sdl, &doc).is_empty(); let ok2 = check_operation(&ts_json, &doc).is_empty();
+            n_corpus += 1;
+            cases.push(format!("CVerdict {} {} {}", coq_str(&label), coq_bool(ok1), coq_bool(ok2)),
+                json!({"kind": "verdict", "label": label, "corpus_file": f.to_string_lossy(), "sdl": sdl, "json": jt, "doc": doc_text}));
+        }
+    }
 
     // ---- stream 1: both routes on generated models
     let n_models = if thorough { 400 } else { 64 };
@@ -608,7 +683,11 @@ fn main() {
         *st.styles.entry(format!("{style:?}/meta={meta}")).or_default() += 1;
         let order: Vec<usize> = { let mut o: Vec<usize> = (0..m.types.len()).collect(); if rng.chance(1, 2) { rng.shuffle(&mut o); } o };
         let sdl = render_sdl(&m, &order);
-        let listed = listed_types(&m, meta);
+        let listed0 = listed_types(&m, meta);
+        // the result may list its types in any order
+        let jorder: Vec<usize> = if i % 3 == 1 { let mut o: Vec<usize> = (0..listed0.len()).collect(); rng.shuffle(&mut o); o } else { vec![] };
+        let listed: Vec<MType> = if jorder.is_empty() { listed0.clone() } else { jorder.iter().map(|&k| listed0[k].clone()).collect() };
+        if !jorder.is_empty() { st.n_json_shuffled += 1; }
         let j = introspect_of(style, &listed, &m);
         let jt = j.text();
         distinct.insert(sdl.clone());
@@ -620,7 +699,7 @@ fn main() {
         // JSON route
         let (out_json, tag, ts_json) = json_route(&jt);
         let descr = json!({"kind": "routes", "label": label, "style": format!("{style:?}"), "meta": meta, "sdl": sdl, "json": jt, "json_route": tag});
-        let term = |strict: bool| format!("CRoutes {} {} {:?} {} {} {} {} {} {}", coq_bool(strict), coq_bool(label != "shadow-root"), style, coq_bool(meta), coq_model(&m), ast_coq::tsdoc(&tsdoc), j.coq(), cschema(&ts_sdl), out_json);
+        let term = |strict: bool| format!("CRoutes {} {} {:?} {} [{}]%nat {} {} {} {} {}", coq_bool(strict), coq_bool(label != "shadow-root"), style, coq_bool(meta), jorder.iter().map(|k| k.to_string()).collect::<Vec<_>>().join("; "), coq_model(&m), ast_coq::tsdoc(&tsdoc), j.coq(), cschema(&ts_sdl), out_json);
         cases.push(term(false), descr.clone());
         st.n_routes += 1;
         if label != "shadow-root" { st.n_guard += 1; }
@@ -673,6 +752,7 @@ fn main() {
         }
         // a non-repeatable built-in directive applied twice: rejected on both routes
         docs.push(("twice-skip".into(), "query T { __typename @skip(if: true) @skip(if: false) }\n".into()));
+        if meta { docs.push(("meta-type-fragment".into(), "query T { __typename }\nfragment G on __Type { name }\n".into())); }
         if let Some(b) = unused_builtin.first() { docs.push(("unused-builtin-variable".into(), format!("query Q($v: {b}) {{ __typename }}\n"))); }
         let docs_for_cli: Vec<(String, String)> = docs.clone();
         for (dl, text) in docs {
@@ -748,8 +828,8 @@ fn main() {
         "rule": "stream 1: one generated schema model (gen.rs schema, valid by construction, enriched with descriptions / deprecations on enum values, arguments, input fields, directives) = one SDL text (types in random order) + one introspection result built independently from the model (two key styles, with or without the introspection types, built-in scalars listed iff referenced); both real routes are run, both Schema values dumped, the declaration file printed on both routes, 5-6 generated operation documents checked under both. stream 2: mutated introspection results (missing / duplicated / renamed / unknown keys, wrong JSON types, unknown kinds, wrapped references, sequence-form structs, deprecation and isRepeatable variants, broken argument types, duplicated type definitions) through schema_from_introspection_json. distinct = distinct SDL texts + distinct (schema, document) pairs + distinct JSON texts",
         "samples": samples,
         "distribution": {
-            "models_both_routes": st.n_routes, "models_satisfying_model_ok (hypothesis of C15_routes_agree, checked in Coq per case)": st.n_guard, "styles": st.styles, "back_conversions": st.n_back,
-            "cli_twin_projects": st.n_cli, "cli_exit_status_differences_observed": st.n_cli_exit_diff, "operation_documents": st.n_docs, "verdict_differences_observed": st.n_verdict_diff,
+            "models_both_routes": st.n_routes, "models_with_shuffled_json_type_order": st.n_json_shuffled, "models_satisfying_model_ok (hypothesis of C15_routes_agree, checked in Coq per case)": st.n_guard, "styles": st.styles, "back_conversions": st.n_back,
+            "refutation_witnesses_replayed": n_witness, "refutation_witnesses_still_reproducing": n_witness_reproduced, "corpus_files_replayed": n_corpus, "cli_twin_projects": st.n_cli, "cli_exit_status_differences_observed": st.n_cli_exit_diff, "operation_documents": st.n_docs, "verdict_differences_observed": st.n_verdict_diff,
             "strict_equivalence_cases": st.n_strict_equiv, "alias_strict_cases": st.n_alias_strict, "models_with_alias_text_difference": st.n_alias_text_diff,
             "json_cases": st.n_json, "json_outcomes": st.json_outcomes, "mutation_kinds": st.mutation_kinds,
         },
